@@ -38,7 +38,7 @@ POOLS = {
     "deep": ["a", "b"],
 }
 POOL_ORDER = ["ab", "abc", "abcd", "real", "idn", "edge", "digits", "suffixy", "wide", "deep"]
-URL_FORMS = ["http", "bare", "port", "schemeless", "auth", "split", "https_q", "auth_noport", "user_only", "upper_scheme", "query_only", "frag_only", "bare_port", "bare_query", "bare_user"]
+URL_FORMS = ["http", "bare", "port", "schemeless", "auth", "split", "https_q", "auth_noport", "user_only", "upper_scheme", "query_only", "frag_only", "bare_port", "bare_query", "bare_user", "bare_dslash"]
 NONSTRING = ["none", "int", "list", "bytes"]
 FAULT_KINDS = ["iter_cancel", "add_raises"]
 
@@ -106,6 +106,10 @@ def render_url(host, form):
         return "ftp://user@%s:21/" % host
     if form == "upper_scheme":
         return "HTTPS://%s/Path" % host
+    if form == "bare_dslash":
+        # (a single all-letter label followed by '//' reads as a protocol to the
+        # library's own PROTOCOL_RE, 'be//x' like 'http//x': not a host spelling)
+        return "%s//article1.html" % host if "." in host else host
     if form == "frag_only":
         return "https://%s#section" % host
     if form == "bare_port":
